@@ -37,6 +37,24 @@ func main() {
 		mk("regexp-path-demand", "same as served-then-late on a regular-expression path (the path is destroyed when idle)",
 			pmlib.DemandBody(reConf, pmlib.DemandSpec{Source: true, SourceGoes: true, Describe: true, Late: true}), 1, 2),
 	}
+	// paths that go away (configuration removed / recreated) while their source is attached, always-available or not
+	aa := "    alwaysAvailable: yes\n    alwaysAvailableTracks:\n    - codec: G711\n      sampleRate: 8000\n      channelCount: 1\n      muLaw: false\n"
+	aaConf := pmlib.LoadConf("paths:\n  p:\n    overridePublisher: yes\n" + aa + hooks)
+	aaCold := pmlib.LoadConf("paths:\n  p:\n    overridePublisher: yes\n    maxReaders: 7\n" + aa + hooks)
+	pubCold := pmlib.LoadConf("paths:\n  p:\n    overridePublisher: yes\n    maxReaders: 7\n" + hooks)
+	none := pmlib.LoadConf("paths: {}\n")
+	scn = append(scn,
+		mk("always-available-conf-removed", "always-available path with publisher A and reader R0 attached; its configuration is removed while B publishes and R1 reads; shutdown",
+			pmlib.ConcBody(pmlib.ConcSpec{Base: aaConf, Reload: none, Name: "p", PrePublish: true, Publisher: true, Reader: true, Hooks: true, Audio: true}), 1, 2),
+		mk("always-available-recreated", "same, the path is recreated by a non hot-reloadable change",
+			pmlib.ConcBody(pmlib.ConcSpec{Base: aaConf, Reload: aaCold, Name: "p", PrePublish: true, Publisher: true, Reader: true, Hooks: true, Audio: true}), 1, 2),
+		mk("always-available-kick", "always-available path: publisher A and reader R0 are kicked while B publishes; shutdown",
+			pmlib.ConcBody(pmlib.ConcSpec{Base: aaConf, Name: "p", PrePublish: true, Publisher: true, Kick: true, Hooks: true, Audio: true}), 1, 2),
+		mk("conf-removed-with-source", "ordinary path with publisher A and reader R0 attached; its configuration is removed while B publishes; shutdown",
+			pmlib.ConcBody(pmlib.ConcSpec{Base: pubConf, Reload: none, Name: "p", PrePublish: true, Publisher: true, Reader: true, Hooks: true}), 1, 2),
+		mk("recreated-with-source", "same, the path is recreated",
+			pmlib.ConcBody(pmlib.ConcSpec{Base: pubConf, Reload: pubCold, Name: "p", PrePublish: true, Publisher: true, Reader: true, Hooks: true}), 1, 2),
+	)
 	vexplore.Main("C20", scn, []string{
 		"observation point: the moment the server invokes a hook (the synchronous 'command started/stopped/launched' log line of hooks.On*), not the life of the spawned process",
 		"commands are fake processes (exec rewrite in internal/externalcmd)",
